@@ -21,10 +21,11 @@ class Unsupported(Exception):
 
 
 class Obligation(object):
-    __slots__ = ('name', 'hyps', 'goal', 'path', 'meta', 'kind')
+    __slots__ = ('name', 'hyps', 'goal', 'path', 'meta', 'kind', 'light')
 
-    def __init__(self, name, hyps, goal, path, meta=None, kind='ensures'):
+    def __init__(self, name, hyps, goal, path, meta=None, kind='ensures', light=None):
         self.name = name
+        self.light = light      # hypotheses without witness facts (a sound relaxation)
         self.hyps = hyps
         self.goal = goal
         self.path = path
@@ -147,7 +148,8 @@ class PathCtx(object):
     def oblige(self, name, goal, meta=None, kind='ensures'):
         if isinstance(goal, bool):
             goal = z3.BoolVal(goal)
-        self.obligations.append(Obligation(name, self.hyps(), goal, self.path_no, meta, kind))
+        self.obligations.append(Obligation(name, self.hyps(), goal, self.path_no, meta, kind,
+                                           light=list(self.assumes) + list(self.pc)))
 
 
 class ExploreResult(object):
